@@ -73,6 +73,24 @@ pub fn check_case(zoo: &Zoo, c: &Case) -> Result<&'static str, Fail> {
             // (4) "The encoder may refuse a value only with the documented inconsistent-extension
             //      error, and only when the first extension addition is absent while a later one is present."
             if kind == "ExtensionFieldsInconsistent" && first_add_absent_later_present {
+                // The pattern is legal on the wire (X.691 19.7/19.8: one bit per addition), so a peer
+                // may send what this writer refuses: "absent components decode as absent" for
+                // every presence pattern is checked on the reference encoding.
+                let want = refcodec::encode_def(&e.module, &e.def, &c.value).map_err(|x| ("harness:reference".to_string(), format!("{id}: {x}")))?.bits;
+                let bytes = vcore::bitmodel::bytes_of(&want);
+                match decode(e, &bytes, want.len()) {
+                    Dec::Panic(p) => return Err((format!("decode-panic:{}", panic_class(&p)), format!("{id} pattern {:?} (X.691 encoding of the pattern the writer refuses): the decoder panicked: {p}", c.pattern))),
+                    Dec::Err(k) => return Err((format!("refused-pattern:decode-error:{k}"), format!("{id} pattern {:?}: decoding the X.691 encoding {} of the pattern the writer refuses failed with {k}", c.pattern, bitstr(&want)))),
+                    Dec::Ok(val, pos) => {
+                        let back = e.extract(&*val).map_err(|x| ("harness:extract".to_string(), x))?;
+                        if back != c.value {
+                            return Err(("refused-pattern:decode-presence".into(), format!("{id} pattern {:?}: the X.691 encoding {} of {} (a pattern the writer refuses) is read as {}", c.pattern, bitstr(&want), c.value.brief(), back.brief())));
+                        }
+                        if pos != want.len() {
+                            return Err(("refused-pattern:bits-consumed".into(), format!("{id} pattern {:?}: {} bits in the X.691 encoding, {pos} consumed", c.pattern, want.len())));
+                        }
+                    }
+                }
                 return Ok("documented-refusal");
             }
             return Err((
@@ -164,7 +182,7 @@ fn case_json(zoo: &Zoo, c: &Case) -> J {
     json!({"module_text": e.text(), "module": e.module.name, "type": e.def.name, "asn1": vcore::print::type_text(&e.def.ty), "pattern": c.pattern, "value_brief": c.value.brief(), "value": serde_json::to_value(&c.value).unwrap()})
 }
 
-const RULE: &str = "bounded-exhaustive: every SEQUENCE and SET shape with <= N components (N = 3 quick, 5 thorough; each component mandatory / OPTIONAL / DEFAULT, extension marker at every position or absent; component types rotate through INTEGER(0..255), BOOLEAN, IA5String(SIZE(1..3)), INTEGER(-8..7), a referenced ENUMERATED, NULL; SET shapes carry explicit tags that reverse the root order), compiled through the real pipeline; for every shape all 2^k presence patterns (k = OPTIONAL/DEFAULT root components + extension additions; DEFAULT: equal to / different from the default) x 3 random payloads. Oracle: preamble computed from shape and pattern; whole encoding == reference; decode returns the written presence; Err only ExtensionFieldsInconsistent and only for 'first addition absent, later present'. Non-trivial: shape has >= 1 OPTIONAL/DEFAULT/extension component; distinct = (shape, pattern, payload).";
+const RULE: &str = "bounded-exhaustive: every SEQUENCE and SET shape with <= N components (N = 3 quick, 5 thorough; each component mandatory / OPTIONAL / DEFAULT, extension marker at every position or absent; component types rotate through INTEGER(0..255), BOOLEAN, IA5String(SIZE(1..3)), INTEGER(-8..7), a referenced ENUMERATED, NULL; SET shapes carry explicit tags that reverse the root order), compiled through the real pipeline; for every shape all 2^k presence patterns (k = OPTIONAL/DEFAULT root components + extension additions; DEFAULT: equal to / different from the default) x 3 random payloads. Oracle: preamble computed from shape and pattern; whole encoding == reference; decode returns the written presence; Err only ExtensionFieldsInconsistent and only for 'first addition absent, later present' - and for that pattern the reference encoder's bits (what a peer may send) must decode to the pattern. Non-trivial: shape has >= 1 OPTIONAL/DEFAULT/extension component; distinct = (shape, pattern, payload).";
 
 pub fn run(ctx: Ctx) -> i32 {
     let report = Report::new(ctx.clone(), RULE);
